@@ -8,7 +8,7 @@
 #              both accesses are inside these
 META = {
     "pending_reason": "not claimed yet: the monitor for this property is still being built (see DESIGN.md Appendix C); the technique applies",
-    "hook_commits": [],
+    "hook_commits": ["8c2d351"],
     "notes": "All checks are runtime monitors over executions of the real code built from /repo's working tree (go test -overlay, tag verif). Verdicts: exit 0 held on what was observed, exit 1 VIOLATION, exit 2 broken/inconclusive run. Known findings: known_findings.json.",
     "engines": [
         {"name": "vcheck", "path": "/verif/vcheck", "serves_properties": [], "kind_free_text": "python driver: overlay build of /repo + harness, sharded runs, merge of observations, known-findings matching, evidence"},
